@@ -260,6 +260,13 @@ class Interp:
                 same = (l is None and r is None) or (isinstance(l, type(None)) and isinstance(r, type(None)))
                 return same if isinstance(op, ast.Is) else not same
             raise Undecided(U(e)[:40])
+        if isinstance(e, ast.BinOp) and isinstance(e.op, (ast.Add, ast.Sub, ast.Mult, ast.Div)):
+            l, r = self.ev(e.left), self.ev(e.right)
+            if isinstance(l, (int, float)) and isinstance(r, (int, float)) and not isinstance(l, bool) and not isinstance(r, bool):
+                if isinstance(e.op, ast.Div) and r == 0:
+                    raise Undecided("division by zero in " + U(e)[:40])
+                return {ast.Add: lambda: l + r, ast.Sub: lambda: l - r, ast.Mult: lambda: l * r, ast.Div: lambda: l / r}[type(e.op)]()
+            raise Undecided(U(e)[:40])
         if isinstance(e, ast.BinOp) and isinstance(e.op, ast.BitAnd):
             l, r = self.ev(e.left), self.ev(e.right)
             if isinstance(l, BoxV) and isinstance(r, BoxV):
@@ -293,6 +300,14 @@ class Interp:
                     if "lA" not in self.row:
                         raise NeedLength()
                     return (self.row["sA"] * self.row["lA"]) if v.role == "A" else (self.row["sB"] * self.row["lB"])
+            if isinstance(f, ast.Attribute) and f.attr == "isclose" and isinstance(f.value, ast.Name) \
+                    and f.value.id in ("math", "np") and len(e.args) == 2:
+                import math as _math
+                a, b = self.ev(e.args[0]), self.ev(e.args[1])
+                kw = {k.arg: self.ev(k.value) for k in e.keywords}
+                if isinstance(a, (int, float)) and isinstance(b, (int, float)) and set(kw) <= {"rel_tol", "abs_tol", "rtol", "atol"}:
+                    return _math.isclose(a, b, rel_tol=kw.get("rel_tol", kw.get("rtol", 1e-9)),
+                                         abs_tol=kw.get("abs_tol", kw.get("atol", 0.0)))
             if isinstance(f, ast.Name) and f.id == "abs" and len(e.args) == 1:
                 return abs(self.ev(e.args[0]))
             if isinstance(f, ast.Name) and f.id == "bool" and len(e.args) == 1:
